@@ -197,6 +197,10 @@ StdNotStray(rt) ==
   \A i \in 0..2 : (i \in DOMAIN rt /\ rt[i].ino \in libpipes) =>
      \/ StreamCfg(i) = "pipe"
      \/ StreamCfg(i) = "merge" /\ StreamCfg(IF i = 2 THEN 1 ELSE 2) = "pipe"
+     \* (or it is the parent's own stream, inherited or merged onto: the parent logs through a child of its own)
+     \/ StreamCfg(i) = "none" /\ i \in DOMAIN pre /\ pre[i].ino = rt[i].ino
+     \/ StreamCfg(i) = "merge" /\ LET o == IF i = 2 THEN 1 ELSE 2 IN
+                                   StreamCfg(o) = "none" /\ o \in DOMAIN pre /\ pre[o].ino = rt[i].ino
      \* (or the caller itself passed an end of a pipe of another Popen as this stream: a hand-made pipeline)
      \/ StreamCfg(i) \in {"file", "dup", "rc"}
      \/ StreamCfg(i) = "merge" /\ StreamCfg(IF i = 2 THEN 1 ELSE 2) \in {"file", "dup", "rc"}
